@@ -45,6 +45,16 @@ func c18Pool(thorough bool) []c18Val {
 	for _, s := range []string{"", "a", "b", "ab", "B", "é", "héllo", "héllp", "hé", "日本", "日本語", "añb", "z"} {
 		vs = append(vs, c18Val{fmt.Sprintf("%q", s), "s0_" + s, "str", s, 0})
 	}
+	// long strs (32 bytes and more) that differ in a single character at several positions
+	long := "thequickbrownfoxjumpsoverthelazydogandrunsawayfromthefarmerswife0123456789"
+	for _, ln := range []int{31, 32, 33, 43, 64, 74} {
+		b := long[:ln]
+		vs = append(vs, c18Val{fmt.Sprintf("%q", b), "s0_" + b, "str", b, 0})
+		for _, pos := range []int{3, ln / 2, ln - 2} {
+			m := b[:pos] + "Z" + b[pos+1:]
+			vs = append(vs, c18Val{fmt.Sprintf("%q", m), "s0_" + m, "str", m, 0})
+		}
+	}
 	vs = append(vs, c18Val{"MyStr.new(\"a\")", "s1_a", "str", "a", 1}, c18Val{"MyStr.new(\"\")", "s1_", "str", "", 1}, c18Val{"MyStr.new(\"héllo\")", "s1_héllo", "str", "héllo", 1})
 	vs = append(vs, c18Val{src: "nil", enc: "n"})
 	vs = append(vs,
@@ -187,4 +197,21 @@ func genC18(c *Ctx) {
 			}
 		}
 	}
+	// ---- the same answers after a long history of comparisons in this process (many unequal and equal comparisons of
+	// containers and scalars): every value still equals itself and a sample of the table is unchanged
+	histSrc := "h1 := (1:1500)@{|i| [i] == [0]}\nh2 := (1:1500)@{|i| {a: i} == {a: 0}}\nh3 := (1:1500)@{|i| %{i: [i]} == %{i: [0]}}\nh4 := (1:600)@{|i| [[i], i] == [[i], i]}\n[h1.len, h2.len, h3.len, h4.len]"
+	ho := c.It.RunIn(env, histSrc, "", 5000000)
+	c.Em.Emit(Rec{Src: histSrc, Impl: ho.Canon(), NT: true, Tags: []string{"history"}})
+	if ho.Kind == "val" {
+		for i, x := range pool {
+			again := run(fmt.Sprintf("v%d == v%d", i, i))
+			law(again == eq[i][i], "stability of == under history", fmt.Sprintf("%s == itself gave %s, and %s after 5000 other comparisons", x.src, eq[i][i], again), "history")
+			j := (i*7 + 3) % n
+			for _, op := range c18Ops {
+				a2 := run(fmt.Sprintf("v%d %s v%d", i, op.sym, j))
+				law(a2 == res[op.name][i][j], "stability of "+op.sym+" under history", fmt.Sprintf("%s %s %s gave %s, and %s after 5000 other comparisons", x.src, op.sym, pool[j].src, res[op.name][i][j], a2), "history")
+			}
+		}
+	}
+
 }
